@@ -955,3 +955,185 @@ func checkSliceRemovalIdiom(c *core.Ctx, st *core.RuleStat, rule string, pi *Pkg
 		}
 	}
 }
+
+// checkDrainLoops: a flush empties every port it drains. A drain loop is a loop that does nothing
+// but take messages off a port (`for p.RetrieveIncoming() != nil {}`); it stops when that port is
+// empty. The rule requires that a drain loop serves one port only and that each of its exits lies
+// on the edge on which the retrieved message is nil: a loop over two ports joined by && stops as
+// soon as either is empty and leaves the rest of the other in place, so requests that were handed
+// over before the flush are served after it.
+func checkDrainLoops(c *core.Ctx, st *core.RuleStat, rule string, pi *PkgInfo, what string) {
+	for _, fn := range pi.Funcs {
+		for _, b := range fn.Blocks {
+			for _, h := range b.Succs {
+				if !h.Dominates(b) {
+					continue
+				}
+				// natural loop of the back edge b -> h
+				loop := map[*ssa.BasicBlock]bool{h: true}
+				stack := []*ssa.BasicBlock{b}
+				for len(stack) > 0 {
+					x := stack[len(stack)-1]
+					stack = stack[:len(stack)-1]
+					if loop[x] {
+						continue
+					}
+					loop[x] = true
+					stack = append(stack, x.Preds...)
+				}
+				var retrieves []*ssa.Call
+				pure := true
+				for blk := range loop {
+					for _, in := range blk.Instrs {
+						switch x := in.(type) {
+						case *ssa.Call:
+							if x.Call.IsInvoke() && x.Call.Method.Name() == "RetrieveIncoming" {
+								retrieves = append(retrieves, x)
+							} else {
+								pure = false
+							}
+						case *ssa.If, *ssa.Jump, *ssa.BinOp, *ssa.UnOp, *ssa.Phi, *ssa.FieldAddr, *ssa.DebugRef, *ssa.ChangeInterface, *ssa.MakeInterface:
+						default:
+							pure = false
+						}
+					}
+				}
+				if !pure || len(retrieves) == 0 {
+					continue
+				}
+				// one loop per back edge target: report once per header
+				if b != lastBackEdgeSource(h, loop) {
+					continue
+				}
+				st.Instances++
+				c.MarkAnalysed(fn)
+				ports := map[string]bool{}
+				for _, r := range retrieves {
+					ports[portOfCall(r)] = true
+				}
+				ok := len(ports) == 1
+				// every exit of the loop is decided by a nil test of a retrieved message
+				for blk := range loop {
+					iff, isIf := blk.Instrs[len(blk.Instrs)-1].(*ssa.If)
+					leaves := false
+					for _, s := range blk.Succs {
+						if !loop[s] {
+							leaves = true
+						}
+					}
+					if !leaves {
+						continue
+					}
+					if !isIf {
+						ok = false
+						continue
+					}
+					cmp, isCmp := iff.Cond.(*ssa.BinOp)
+					if !isCmp || (cmp.Op != token.NEQ && cmp.Op != token.EQL) {
+						ok = false
+						continue
+					}
+					isRet := false
+					for _, r := range retrieves {
+						if (cmp.X == ssa.Value(r) && core.IsNilConst(cmp.Y)) || (cmp.Y == ssa.Value(r) && core.IsNilConst(cmp.X)) {
+							isRet = true
+						}
+					}
+					if !isRet {
+						ok = false
+					}
+				}
+				st.Ob(ok)
+				st.Sample("%s: a drain loop takes messages off %v until that port is empty: %v", core.FuncName(fn), sortedKeys(ports), ok)
+				if !ok {
+					c.ReportAt(rule, fn, retrieves[0].Pos(), "drain-loop:"+core.FuncName(fn), core.FuncName(fn)+" drains "+strings.Join(sortedKeys(ports), " and ")+" in one loop (or leaves the loop for another reason than an empty port): the loop ends as soon as one port is empty and the other keeps its messages: "+what)
+				}
+			}
+		}
+	}
+}
+
+// lastBackEdgeSource: a deterministic representative among the back-edge sources of a loop header.
+func lastBackEdgeSource(h *ssa.BasicBlock, loop map[*ssa.BasicBlock]bool) *ssa.BasicBlock {
+	var best *ssa.BasicBlock
+	for _, p := range h.Preds {
+		if loop[p] && h.Dominates(p) {
+			if best == nil || p.Index > best.Index {
+				best = p
+			}
+		}
+	}
+	return best
+}
+
+// checkCountdownExpiry: a countdown that is decremented on every tick, whatever its value, passes
+// zero when the action it releases has to wait (the pipeline is busy in the cycle of expiry). Its
+// expiry test therefore has to be an ordering test (<= 0): with == 0 the item that could not be
+// released in the cycle it reached zero is at -1 one tick later and never expires. A decrement that
+// is itself guarded by `counter > 0` stops at zero, and there an equality test is fine.
+func checkCountdownExpiry(c *core.Ctx, st *core.RuleStat, rule string, pi *PkgInfo, what string) {
+	for _, fn := range pi.Funcs {
+		var g *core.Graph
+		for _, b := range fn.Blocks {
+			for _, in := range b.Instrs {
+				sto, ok := in.(*ssa.Store)
+				if !ok {
+					continue
+				}
+				f := core.FieldOfAddr(sto.Addr)
+				sub, isSub := sto.Val.(*ssa.BinOp)
+				if f == nil || !isSub || sub.Op != token.SUB || core.LoadedField(sub.X) != f {
+					continue
+				}
+				if k, isC := core.ConstInt(sub.Y); !isC || k != 1 {
+					continue
+				}
+				// equality tests of the counter against 0 in this function
+				var eqTests []*ssa.BinOp
+				for _, b2 := range fn.Blocks {
+					for _, in2 := range b2.Instrs {
+						cmp, ok := in2.(*ssa.BinOp)
+						if !ok || (cmp.Op != token.EQL && cmp.Op != token.NEQ) {
+							continue
+						}
+						for _, pr := range [][2]ssa.Value{{cmp.X, cmp.Y}, {cmp.Y, cmp.X}} {
+							if z, isC := core.ConstInt(pr[1]); isC && z == 0 && (core.LoadedField(pr[0]) == f || pr[0] == ssa.Value(sub)) {
+								eqTests = append(eqTests, cmp)
+							}
+						}
+					}
+				}
+				st.Instances++
+				c.MarkAnalysed(fn)
+				if g == nil {
+					g = core.BuildGraph(fn, 0, nil)
+				}
+				guarded := false
+				if n := g.NodeOf(sto); n != nil {
+					guarded = g.Guarded(n, CmpCut(func(_ *core.Node, op token.Token, x, y ssa.Value) int {
+						if core.LoadedField(x) != f {
+							return 0
+						}
+						k, isC := core.ConstInt(y)
+						if !isC {
+							return 0
+						}
+						switch {
+						case op == token.GTR && k >= 0, op == token.GEQ && k >= 1:
+							return 1
+						case op == token.LEQ && k >= 0, op == token.LSS && k >= 1:
+							return -1
+						}
+						return 0
+					}))
+				}
+				ok = guarded || len(eqTests) == 0
+				st.Ob(ok)
+				st.Sample("%s: %s-- (decrement guarded by > 0: %v), equality tests against 0: %d", core.FuncName(fn), f.Name(), guarded, len(eqTests))
+				if !ok {
+					c.ReportAt(rule, fn, eqTests[0].Pos(), "countdown-equality:"+f.Name(), core.FuncName(fn)+" decrements "+f.Name()+" on every pass, whatever its value, and tests it for expiry with "+eqTests[0].Op.String()+" 0: an item that cannot be released in the very cycle its counter reaches 0 is at -1 on the next pass and never expires: "+what)
+				}
+			}
+		}
+	}
+}
